@@ -219,7 +219,11 @@ def cases():
             lw = [draw(st.floats(-30, 30, allow_nan=False, width=32)) for _ in range(N)]
         else:
             lw = [draw(fin)] * N
-        return {"N": N, "logw": [float(np.float32(x)) for x in lw], "method": draw(st.sampled_from(["systematic", "categorical"])),
+        # resampling depends on the normalised weights only: a common additive shift of the log weights (tiny or huge
+        # unnormalised weights, as accumulated over many SMC steps) must not change anything
+        shift = draw(st.sampled_from([0.0, 0.0, 0.0, -60.0, -250.0, -1000.0, 70.0]))
+        lw = [x + shift for x in lw]
+        return {"shift": shift, "N": N, "logw": [float(np.float32(x)) for x in lw], "method": draw(st.sampled_from(["systematic", "categorical"])),
                 "lme": draw(st.sampled_from([0.0, -3.25, 12.5])), "key": draw(st.integers(0, 2**30))}
 
     return _c()
@@ -241,7 +245,7 @@ def run_shard(ctx):
         lw = np.asarray(case["logw"][: case["N"]])
         nt = case["N"] >= 2 and np.ptp(lw[np.isfinite(lw)]) > 0 or (case["N"] >= 2 and not np.all(np.isfinite(lw)))
         key = (case["N"], [round(x, 3) if math.isfinite(x) else "-inf" for x in case["logw"][: case["N"]]])
-        ctx.case(case, bool(nt), [f"C12.w_{info['class']}", f"C12.N_{'1' if case['N'] == 1 else 'small' if case['N'] <= 8 else 'large'}"],
+        ctx.case(case, bool(nt), [f"C12.w_{info['class']}"] + ([f"C12.common_shift_{'down' if case['shift'] < 0 else 'up'}"] if case.get("shift") else []) + [ f"C12.N_{'1' if case['N'] == 1 else 'small' if case['N'] <= 8 else 'large'}"],
                  sample={**case, "logw": [x if math.isfinite(x) else "-inf" for x in case["logw"][: case["N"]]], "info": info}, key=key)
         ctx.count("C12.offset_cells_probed", info.get("offset_cells", 0))
         for b, w in fails:
